@@ -423,9 +423,9 @@ class Wsdl11(XmlSchema):
                 for header in in_headers:
                     soap_header = SubElement(input, input_binding_ns('header'))
                     soap_header.set('use', 'literal')
-                    soap_header.set('message', '%s:%s' % (
-                                header.get_namespace_prefix(self.interface),
-                                in_header_message_name))
+                    # messages live in the target namespace of the WSDL
+                    soap_header.set('message', '%s:%s' % (pref_tns,
+                                                        in_header_message_name))
                     soap_header.set('part', header.get_type_name())
 
             if not (method.is_async or method.is_callback):
@@ -455,9 +455,8 @@ class Wsdl11(XmlSchema):
                     for header in out_headers:
                         soap_header = SubElement(output, output_binding_ns("header"))
                         soap_header.set('use', 'literal')
-                        soap_header.set('message', '%s:%s' % (
-                                header.get_namespace_prefix(self.interface),
-                                out_header_message_name))
+                        soap_header.set('message', '%s:%s' % (pref_tns,
+                                                       out_header_message_name))
                         soap_header.set('part', header.get_type_name())
 
                 if not (method.faults is None):
